@@ -3,9 +3,21 @@ package main
 import (
 	"bytes"
 	"fmt"
+	"os"
+	"path/filepath"
+
+	"golang.org/x/text/language"
+
+	"seehuhn.de/go/geom/matrix"
 
 	"seehuhn.de/go/sfnt"
+	"seehuhn.de/go/sfnt/cff"
 	"seehuhn.de/go/sfnt/glyf"
+	"seehuhn.de/go/sfnt/glyph"
+	"seehuhn.de/go/sfnt/opentype/classdef"
+	"seehuhn.de/go/sfnt/opentype/coverage"
+	"seehuhn.de/go/sfnt/opentype/gtab"
+	"seehuhn.de/go/sfnt/opentype/gtab/builder"
 	"seehuhn.de/go/sfnt/post"
 
 	"verif.local/harness/internal/fonts"
@@ -31,12 +43,162 @@ func macRomanNames() []string {
 	return info.Names
 }
 
-func roundTrip(f *sfnt.Font) (*sfnt.Font, error) {
-	var buf bytes.Buffer
-	if _, err := f.Write(&buf); err != nil {
-		return nil, err
+// bytesDir (C16_BYTES) holds the files of the read-back fonts, written by `c16 fonts`.  A process
+// that finds the file only reads it: it does not encode anything before its first case (cold
+// cases: no package-level state of the writers has been touched).
+func roundTripID(id string, mk func() (*sfnt.Font, error)) func() (*sfnt.Font, error) {
+	return func() (*sfnt.Font, error) {
+		dir := os.Getenv("C16_BYTES")
+		var path string
+		if dir != "" {
+			path = filepath.Join(dir, id+".bin")
+			if data, err := os.ReadFile(path); err == nil {
+				return sfnt.Read(bytes.NewReader(data))
+			}
+		}
+		f, err := mk()
+		if err != nil {
+			return nil, err
+		}
+		var buf bytes.Buffer
+		if _, err := f.Write(&buf); err != nil {
+			return nil, err
+		}
+		if path != "" {
+			if err := os.WriteFile(path, buf.Bytes(), 0o644); err != nil {
+				return nil, err
+			}
+		}
+		return sfnt.Read(bytes.NewReader(buf.Bytes()))
 	}
-	return sfnt.Read(bytes.NewReader(buf.Bytes()))
+}
+
+// The lookups of the "rich" fonts, in the notation of the builder package: every GSUB type 1-6
+// and GPOS type 1-4 in every format the notation reaches, contextual and chained rules with two
+// backtrack and two lookahead glyphs.  GPOS 7 and 8 reuse the contextual subtables.
+const richGsub = `
+	GSUB1: C->D, c->d
+	GSUB1: a->e, b->e, g->e
+	GSUB2: d -> "ab", h -> "gg"
+	GSUB3: e -> [ "gh" ]
+	GSUB4: f i -> fi, f l -> fl
+	GSUB4: -marks T o -> V
+	GSUB5:
+		"abc" -> 0@2, "abd" -> 1@0 1@1 ||
+		class :x: = [a-d]
+		class :y: = [e g h]
+		/a b/ :x: :y: -> 1@0, :x: :: :y: -> 1@2 ||
+		[a b] [c d] [e g] -> 0@1
+	GSUB6:
+		A B | C | D T -> 0@0, B A | c | V o -> 0@0 ||
+		inputclass :in: = [C c]
+		backtrackclass :bt: = [A B]
+		lookaheadclass :la: = [D T V]
+		/C c/ :bt: :bt: | :in: | :la: :la: -> 0@0 ||
+		[A] [A B] | [C c] | [D T] [V o] -> 0@0
+`
+
+const richGpos = `
+	GPOS1: [A-C] -> y+10 ||
+		D -> dx-1, T -> dx+1, V -> x+1, o -> y+1
+	GPOS2: A V -> dx-100, o o -> dx+100, "AT" -> dx-80
+	GPOS2: T e -> y+100 dx-50 & y-100
+	GPOS2:
+		/A T V o/
+		first V o, A T;
+		second e o, V T;
+		_, _, _,
+		_, dx-50 & y-10, dx+10,
+		_, dx-10 & y+10, dx-30
+	GPOS3:
+		A: 1,1 to 2,2; B: 1,0 to 0,1 ||
+		T: 1,1 to 2,2; V: 1,1 to 2,2
+	GPOS4:
+		mark acutecomb: 0@100,100;
+		mark gravecomb: 1@200,100;
+		base A: @400,1000 @500,1000;
+		base B: @500,1000 @600,900;
+		base o: @500,1000 @500,-1000;
+`
+
+// richFont adds the lookups above (and a GDEF table with mark glyph sets) to a constructed font
+// with glyph names.
+func richFont(kind string, seed int64) (*sfnt.Font, error) {
+	f := fonts.Make(vio.Rand(seed), fonts.Opts{Kind: kind, N: 30, Cmap: "4", Names: true, Gdef: true})
+	gsub, err := builder.Parse(f, richGsub)
+	if err != nil {
+		return nil, fmt.Errorf("rich GSUB: %v", err)
+	}
+	gpos, err := builder.Parse(f, richGpos)
+	if err != nil {
+		return nil, fmt.Errorf("rich GPOS: %v", err)
+	}
+	// GPOS 7 (contextual) and 8 (chained contextual) positioning: the same rule structures,
+	// with nested actions that point to the single-adjustment lookup 0
+	ctx, err := builder.Parse(f, `
+	GSUB5:
+		"AV" -> 0@0, "To" -> 0@0 0@1 ||
+		class :x: = [A B]
+		class :y: = [T V]
+		/A B/ :x: :y: -> 0@0 ||
+		[A B] [T V] -> 0@1
+	GSUB6:
+		A B | C | D T -> 0@0, B A | D | V o -> 0@0 ||
+		inputclass :in: = [C D]
+		backtrackclass :bt: = [A B]
+		lookaheadclass :la: = [D T V]
+		/C D/ :bt: :bt: | :in: | :la: :la: -> 0@0 ||
+		[A] [A B] | [C D] | [D T] [V o] -> 0@0
+	`)
+	if err != nil {
+		return nil, fmt.Errorf("rich GPOS 7/8: %v", err)
+	}
+	for i, l := range ctx {
+		l.Meta.LookupType = uint16(7 + i)
+		gpos = append(gpos, l)
+	}
+	all := func(ll gtab.LookupList) []gtab.LookupIndex {
+		var res []gtab.LookupIndex
+		for i := range ll {
+			res = append(res, gtab.LookupIndex(i))
+		}
+		return res
+	}
+	script := language.MustParse("und-Latn-x-latn") // round-trips through the script list (und-Zyyy does not)
+	// lookups 0 and 1 of GSUB are only used as nested lookups
+	f.Gsub = &gtab.Info{
+		ScriptList:  gtab.ScriptListInfo{script: {Required: 0xFFFF, Optional: []gtab.FeatureIndex{0, 1}}},
+		FeatureList: gtab.FeatureListInfo{{Tag: "calt", Lookups: all(gsub)[2:]}, {Tag: "smcp", Lookups: all(gsub)[:2]}},
+		LookupList:  gsub,
+	}
+	f.Gpos = &gtab.Info{
+		ScriptList:  gtab.ScriptListInfo{script: {Required: 0xFFFF, Optional: []gtab.FeatureIndex{0, 1}}},
+		FeatureList: gtab.FeatureListInfo{{Tag: "kern", Lookups: all(gpos)[1:]}, {Tag: "zzzz", Lookups: all(gpos)[:1]}},
+		LookupList:  gpos,
+	}
+	if f.Gdef != nil {
+		f.Gdef.MarkGlyphSets = []coverage.Set{{11: true}, {11: true, 12: true}}
+		f.Gdef.MarkAttachClass = classdef.Table{11: 1, 12: 2}
+		gsub[5].Meta.LookupFlags |= gtab.UseMarkFilteringSet
+		gsub[5].Meta.LookupFlags &^= gtab.IgnoreMarks
+		gsub[5].Meta.MarkFilteringSet = 1
+	}
+	return f, nil
+}
+
+// cid3Font is a CID-keyed font whose glyphs are assigned to the private dictionaries block-wise
+// (16 glyphs each), so that the FDSelect structure is written in format 3 (ranges) and the
+// read-back font carries the closure cff.readFDSelect installs; every dictionary has its own
+// font matrix, so that a wrong dictionary shows in widths and boxes.
+func cid3Font() (*sfnt.Font, error) {
+	f := fonts.Make(vio.Rand(78), fonts.Opts{Kind: "cid", N: 48, Cmap: "4", FDs: 3, FracWidths: true})
+	o := f.Outlines.(*cff.Outlines)
+	o.FDSelect = func(g glyph.ID) int { return int(g) / 16 % 3 }
+	for i := range o.FontMatrices {
+		s := 1 + 0.5*float64(i)
+		o.FontMatrices[i] = matrix.Matrix{s, 0, 0, s, 0, 0}
+	}
+	return f, nil
 }
 
 // fontSet lists the fonts of a tier.  Constructed fonts ("mk"), the same fonts after one
@@ -51,17 +213,25 @@ func fontSet(thorough bool) []fontSpec {
 		mk := func() (*sfnt.Font, error) { return fonts.Make(vio.Rand(int64(100+i)), o), nil }
 		res = append(res, fontSpec{ID: fmt.Sprintf("mk%d", i), Desc: "constructed " + o.String(), build: mk})
 		if thorough || i < 3 {
-			res = append(res, fontSpec{ID: fmt.Sprintf("rt%d", i), Desc: "read back " + o.String(),
-				build: func() (*sfnt.Font, error) {
-					f, _ := mk()
-					return roundTrip(f)
-				}})
+			id := fmt.Sprintf("rt%d", i)
+			res = append(res, fontSpec{ID: id, Desc: "read back " + o.String(), build: roundTripID(id, mk)})
 		}
+	}
+	lk := func() (*sfnt.Font, error) { return richFont("ttf", 79) }
+	res = append(res, fontSpec{ID: "lk", Desc: "constructed TrueType, glyph names (post 2), GDEF mark sets, GSUB 1-6 / GPOS 1-4,7,8 in all formats", build: lk})
+	res = append(res, fontSpec{ID: "lkrt", Desc: "read back TrueType with GSUB 1-6 / GPOS 1-4,7,8 in all formats", build: roundTripID("lkrt", lk)})
+	res = append(res, fontSpec{ID: "cid3", Desc: "constructed CID-keyed CFF, 3 private dicts assigned block-wise, own font matrices", build: cid3Font})
+	res = append(res, fontSpec{ID: "cid3rt", Desc: "read back CID-keyed CFF with FDSelect format 3 (closure installed by the reader)",
+		build: roundTripID("cid3rt", cid3Font)})
+	if thorough {
+		lkc := func() (*sfnt.Font, error) { return richFont("cff", 80) }
+		res = append(res, fontSpec{ID: "lkc", Desc: "constructed CFF with GSUB 1-6 / GPOS 1-4,7,8 in all formats", build: lkc})
+		res = append(res, fontSpec{ID: "lkcrt", Desc: "read back CFF with GSUB 1-6 / GPOS 1-4,7,8 in all formats", build: roundTripID("lkcrt", lkc)})
 	}
 	res = append(res, fontSpec{ID: "goregular", Desc: "Go Regular (golang.org/x/image) read by sfnt.Read",
 		build: fonts.GoRegular})
 	res = append(res, fontSpec{ID: "macroman", Desc: "258-glyph TrueType font with post version 1: Names is post.macRoman",
-		build: func() (*sfnt.Font, error) {
+		build: roundTripID("macroman", func() (*sfnt.Font, error) {
 			mr := macRomanNames()
 			f := fonts.Make(vio.Rand(77), fonts.Opts{Kind: "ttf", N: len(mr), Cmap: "4", Names: true})
 			o := f.Outlines.(*glyf.Outlines)
@@ -70,8 +240,8 @@ func fontSet(thorough bool) []fontSpec {
 			}
 			o.Names = append([]string(nil), mr...)
 			// whether the result really aliases post.macRoman is reported by `c16 fonts`
-			return roundTrip(f)
-		}})
+			return f, nil
+		})})
 	return res
 }
 
